@@ -25,14 +25,15 @@ RULE = (
     "every note compiled from seeded random pages (all kinds, priorities, YYMMDD/ZID/long dates, multi-line bodies with "
     "bullets and bullet properties, hostile body words) -> Note.to_string() -> placed under '# H' -> compiled again -> "
     "field comparison; plus ungrouped 'S note' renderings / refreshed .zoq pages over generated indexes under every "
-    "ordering key. distinct = distinct note feature tuples (kind, explicit priority?, YYMMDD?, ZID length, long date?, "
+    "ordering key; plus the text `note move` writes for every indexed note of generated directories (sections carrying tags "
+    "and properties, notes with a modify date before their ZID), recompiled and compared with the indexed row. distinct = distinct note feature tuples (kind, explicit priority?, YYMMDD?, ZID length, long date?, "
     "#continuation lines, word-form set); non-trivial = every compiled note."
 )
 ASSUMPTIONS = [
     "own metadata of a note is known from the abstract page it was rendered from",
     "notes whose first compilation already disagrees with the abstract page (known finding C01-idfree-prefix) are not judged here",
 ]
-REQUIRED_COUNTERS = ["enter.to_string", "enter._add_note"]
+REQUIRED_COUNTERS = ["enter.to_string", "enter._add_note", "moves.judged"]
 MIN_JUDGED = {"quick": 5000, "thorough": 100000}
 FINDING_DONE_PN = "C12-done-todo-body-starts-with-Pn"
 
